@@ -133,6 +133,7 @@ CMAX = {'u8': 2**8 - 1, 'u16': 2**16 - 1, 'u32': 2**32 - 1, 'u64': 2**64 - 1, 'u
 OPC = {
     'bloom': {'new': 0, 'ins': 2, 'q': 3, 'union': 4, 'clear': 5, 'clone': 6, 'obs': 7, 'len': 8, 'empty': 9},
     'mem': {},
+    'scale': {},
     'hset': {'new': 0, 'ins': 2, 'q': 3, 'union': 4, 'clear': 5, 'clone': 6, 'obs': 7},
     'sizing': {'bloom': 1, 'cms': 2, 'cuckoo4': 3, 'cuckoo8': 4},
     'cms': {'new': 0, 'add': 2, 'q': 3, 'merge': 4, 'clear': 5, 'clone': 6, 'obs': 7, 'empty': 9},
@@ -218,6 +219,8 @@ def translate_ops(case, aux):
                 else:
                     toks += [4]; j += 1
             out.append((ol(4, toks, [], r), k)); continue
+        if case.st == 'scale':
+            out.append((ol(int(args[0]), args[1:], [], r), k)); continue
         if case.st == 'mem':
             kind = args[0]
             if res != ['panic'] and kind in ('bloom', 'cms', 'hll', 'cuckoo', 'qf'):
@@ -290,3 +293,24 @@ def model_check(st, cases, tag, shards=16):
             except OSError:
                 pass
     return disagreements, aux, errors
+
+
+def scale_cases(tcs):
+    """from t-digest transcripts: one pseudo-case per digest case replaying every logged scale-function call (S lines)
+    and every merge limit (L lines) on the scale-function model"""
+    out = []
+    for tc in tcs:
+        kind = delta = None
+        for op, res, w in tc.ops:
+            if op[0] == 'new' and res != ['panic']:
+                kind = {'K0': 0, 'K1': 1, 'K2': 2, 'K3': 3}[op[2]]; delta = int(op[3])
+                break
+        if kind is None or not (tc.s or tc.l):
+            continue
+        c = TCase(tc.id, 'scale', dict(tc.cfg))
+        for which, inb, n, outb in tc.s[:400]:
+            c.ops.append((['scale', '1', str(kind), str(delta), str(inb), str(n), '1' if which == 'i' else '0'], [str(outb)], []))
+        for n, q0, lim in tc.l[:400]:
+            c.ops.append((['scale', '2', str(kind), str(delta), str(q0), str(n)], [str(lim)], []))
+        out.append(c)
+    return out
